@@ -531,3 +531,361 @@ theorem tail_mismatch (rest e : List Nat) (D : Nat) (hr : Bytes rest) (he : Byte
   exact burst_nonzero e he hb (by rw [← hlin, hx])
 
 end Fit.Integrity
+
+namespace Fit.Integrity
+open Fit.Crc Fit.Gen.Integ
+
+/-! ### the `CheckIntegrity` loop: fuel independence, count shift, appended data -/
+
+/-- add `k` to the count of completed sequences -/
+def bump (k : Nat) : Result → Result
+  | .ok n => .ok (n + k)
+  | .err e n => .err e (n + k)
+
+theorem checkLoop_nil (fuel seq : Nat) (hs : seq ≠ 0) : checkLoop (fuel + 1) seq [] = .ok seq := by
+  simp [checkLoop, decodeFileHeader, hs]
+
+theorem checkLoop_fuel (fuel fuel' seq : Nat) (bs : List Nat) (h1 : bs.length < fuel) (h2 : bs.length < fuel') :
+    checkLoop fuel seq bs = checkLoop fuel' seq bs := by
+  induction fuel generalizing fuel' seq bs with
+  | zero => omega
+  | succ fuel ih =>
+    obtain ⟨fuel', rfl⟩ : ∃ k, fuel' = k + 1 := ⟨fuel' - 1, by omega⟩
+    cases hh : decodeFileHeader true bs with
+    | error e => unfold checkLoop; simp only [hh]
+    | ok p =>
+      obtain ⟨h, rest⟩ := p
+      rw [checkLoop_step _ _ _ _ _ hh, checkLoop_step _ _ _ _ _ hh]
+      obtain ⟨hsz, _, hle, hrest, _⟩ := decodeFileHeader_ok hh
+      have hl : (rest.drop (h.dataSize + 2)).length < bs.length := by
+        rw [hrest]; simp; omega
+      rw [ih fuel' (seq + 1) _ (by omega) (by omega)]
+
+theorem checkLoop_bump (fuel seq k : Nat) (bs : List Nat) (h : bs ≠ [] ∨ seq ≠ 0) :
+    checkLoop fuel (seq + k) bs = bump k (checkLoop fuel seq bs) := by
+  induction fuel generalizing seq bs with
+  | zero => simp [checkLoop, bump]
+  | succ fuel ih =>
+    cases hh : decodeFileHeader true bs with
+    | error e =>
+      unfold checkLoop; simp only [hh]
+      cases bs with
+      | nil =>
+        have : seq ≠ 0 := by rcases h with h | h; exact absurd rfl h; exact h
+        have h2 : seq + k ≠ 0 := by omega
+        simp [this, bump]
+      | cons a t => simp [bump]
+    | ok p =>
+      obtain ⟨hd, rest⟩ := p
+      rw [checkLoop_step _ _ _ _ _ hh, checkLoop_step _ _ _ _ _ hh]
+      split
+      · rfl
+      · split
+        · rfl
+        · rw [show seq + k + 1 = (seq + 1) + k by omega]
+          exact ih (seq + 1) _ (Or.inr (by omega))
+
+/-- the header decode of a stream followed by more data -/
+theorem decodeFileHeader_append {chk : Bool} {bs : List Nat} {h : Hdr} {rest : List Nat}
+    (hh : decodeFileHeader chk bs = .ok (h, rest)) (s : List Nat) :
+    decodeFileHeader chk (bs ++ s) = .ok (h, rest ++ s) := by
+  obtain ⟨hsz, hhead, hle, hrest, _⟩ := decodeFileHeader_ok hh
+  cases bs with
+  | nil => simp at hhead
+  | cons size t =>
+    simp only [List.head?_cons, Option.some.injEq] at hhead
+    subst hhead
+    have hl : h.size - 1 ≤ t.length := by simp at hle; omega
+    rw [decodeFileHeader_take chk _ t hl] at hh
+    rw [List.cons_append, decodeFileHeader_take chk _ (t ++ s) (by simp; omega)]
+    have e1 : (t ++ s).take (h.size - 1) = t.take (h.size - 1) := List.take_append_of_le_length hl
+    rw [e1]
+    split at hh
+    · cases hh
+    · rename_i h' r' hh'
+      simp only [Except.ok.injEq, Prod.mk.injEq] at hh ⊢
+      obtain ⟨e2, e3⟩ := hh
+      exact ⟨e2, by rw [← e3, List.drop_append_of_le_length hl]⟩
+
+theorem le16_append_of_two {l : List Nat} (h : 2 ≤ l.length) (s : List Nat) : le16 (l ++ s) = le16 l := by
+  match l, h with
+  | a :: b :: t, _ => rfl
+
+/-- if the check accepts `bs`, then on `bs ++ s` (with `s ≠ []`) it arrives at `s` with the same count -/
+theorem checkLoop_append (fuel seq n : Nat) (bs s : List Nat)
+    (H : checkLoop fuel seq bs = .ok n) (hf : bs.length < fuel) (fuel' : Nat) (hf' : (bs ++ s).length < fuel') :
+    checkLoop fuel' seq (bs ++ s) = checkLoop fuel' n s := by
+  induction fuel generalizing fuel' seq bs with
+  | zero => omega
+  | succ fuel ih =>
+    obtain ⟨fuel', rfl⟩ : ∃ k, fuel' = k + 1 := ⟨fuel' - 1, by omega⟩
+    cases hh : decodeFileHeader true bs with
+    | error e =>
+      unfold checkLoop at H; simp only [hh] at H
+      cases bs with
+      | nil =>
+        split at H
+        · cases H; rfl
+        · cases H
+      | cons a t => simp at H
+    | ok p =>
+      obtain ⟨h, rest⟩ := p
+      rw [checkLoop_step _ _ _ _ _ hh] at H
+      rw [checkLoop_step _ _ _ _ _ (decodeFileHeader_append hh s)]
+      obtain ⟨hsz, _, hle, hrest, _⟩ := decodeFileHeader_ok hh
+      split at H
+      · cases H
+      · rename_i hlen
+        split at H
+        · cases H
+        · rename_i hcrc
+          have hlen' : h.dataSize + 2 ≤ rest.length := by omega
+          have c1 : ¬ (rest ++ s).length < h.dataSize + 2 := by simp; omega
+          have t1 : (rest ++ s).take h.dataSize = rest.take h.dataSize := List.take_append_of_le_length (by omega)
+          have d1 : (rest ++ s).drop h.dataSize = rest.drop h.dataSize ++ s := List.drop_append_of_le_length (by omega)
+          have d2 : (rest ++ s).drop (h.dataSize + 2) = rest.drop (h.dataSize + 2) ++ s := List.drop_append_of_le_length hlen'
+          rw [if_neg c1, t1, d1, le16_append_of_two (by simp; omega), if_neg hcrc, d2]
+          have hl : (rest.drop (h.dataSize + 2)).length + 14 ≤ bs.length + 2 := by
+            rw [hrest]; simp; omega
+          have hbl : (bs ++ s).length = bs.length + s.length := by simp
+          have hrl : (rest.drop (h.dataSize + 2) ++ s).length = (rest.drop (h.dataSize + 2)).length + s.length := by simp
+          rw [ih (seq + 1) _ H (by omega) fuel' (by omega)]
+          exact checkLoop_fuel _ _ _ _ (by omega) (by omega)
+
+end Fit.Integrity
+
+namespace Fit.Integrity
+open Fit.Crc Fit.Gen.Integ
+
+/-! ### the decoder's header step against the protocol reading of the header (`FitFormat.parseHeader`) -/
+
+/-- the decoder's header step on any stream that starts with 14 and carries the tag, evaluated -/
+theorem header14_eval (pv p0 p1 d0 d1 d2 d3 k0 k1 : Nat) (x : List Nat)
+    (hb : Bytes [14, pv, p0, p1, d0, d1, d2, d3, 0x2E, 0x46, 0x49, 0x54]) :
+    decodeFileHeader true (14 :: pv :: p0 :: p1 :: d0 :: d1 :: d2 :: d3 :: 0x2E :: 0x46 :: 0x49 :: 0x54 :: k0 :: k1 :: x) =
+      if d0 + 256 * d1 + 65536 * d2 + 16777216 * d3 = 0 then .error .notFit
+      else if k0 + 256 * k1 = 0 then .ok (⟨14, d0 + 256 * d1 + 65536 * d2 + 16777216 * d3, k0 + 256 * k1⟩, x)
+      else if crcSpec 0 [14, pv, p0, p1, d0, d1, d2, d3, 0x2E, 0x46, 0x49, 0x54] ≠ k0 + 256 * k1 then .error .crc
+      else .ok (⟨14, d0 + 256 * d1 + 65536 * d2 + 16777216 * d3, k0 + 256 * k1⟩, x) := by
+  have hw : write (write 0 [14]) [pv, p0, p1, d0, d1, d2, d3, 0x2E, 0x46, 0x49, 0x54] =
+      crcSpec 0 [14, pv, p0, p1, d0, d1, d2, d3, 0x2E, 0x46, 0x49, 0x54] := by
+    rw [← write_eq_spec _ hb 0 (by decide)]; rfl
+  unfold decodeFileHeader
+  simp only [hasN, List.take, List.drop, le32, le16, dataTypeFIT_eq, hw]
+  simp
+
+/-- what `parseHeader` returning a header says about the stream -/
+theorem parseHeader_some {bs : List Nat} {h : FitFormat.Header} (H : FitFormat.parseHeader bs = some h) :
+    ∃ pv p0 p1 d0 d1 d2 d3 t,
+      bs = h.size :: pv :: p0 :: p1 :: d0 :: d1 :: d2 :: d3 :: 0x2E :: 0x46 :: 0x49 :: 0x54 :: t ∧
+      h.dataSize = d0 + 256 * d1 + 65536 * d2 + 16777216 * d3 ∧
+      ((h.size = 12 ∧ h.crc = none) ∨ (h.size = 14 ∧ ∃ k0 k1 t', t = k0 :: k1 :: t' ∧ h.crc = some (k0 + 256 * k1))) := by
+  unfold FitFormat.parseHeader at H
+  split at H
+  · rename_i size pv p0 p1 d0 d1 d2 d3 t0 t1 t2 t3 rest
+    split at H
+    · cases H
+    · rename_i htag
+      have htag' : [t0, t1, t2, t3] = FitFormat.tag := by simpa using htag
+      simp only [FitFormat.tag, List.cons.injEq, and_true] at htag'
+      obtain ⟨e0, e1, e2, e3⟩ := htag'
+      subst e0 e1 e2 e3
+      split at H
+      · rename_i h12
+        cases H
+        exact ⟨pv, p0, p1, d0, d1, d2, d3, rest, by rw [h12], rfl, Or.inl ⟨rfl, rfl⟩⟩
+      · split at H
+        · rename_i h14
+          split at H
+          · rename_i k0 k1 t'
+            cases H
+            exact ⟨pv, p0, p1, d0, d1, d2, d3, _, by rw [h14], rfl, Or.inr ⟨rfl, k0, k1, t', rfl, rfl⟩⟩
+          · cases H
+        · cases H
+  · cases H
+
+/-- the decoder accepts a header only where the protocol reading sees one -/
+theorem parseHeader_of_decode {bs : List Nat} {h : Hdr} {rest : List Nat}
+    (H : decodeFileHeader true bs = .ok (h, rest)) : FitFormat.parseHeader bs ≠ none := by
+  unfold decodeFileHeader at H
+  cases bs with
+  | nil => simp at H
+  | cons size t =>
+    simp only at H
+    by_cases hs : size ≠ 12 ∧ size ≠ 14
+    · simp [hs] at H
+    · simp only [hs, if_false] at H
+      have hsz : size = 12 ∨ size = 14 := by omega
+      by_cases hn : (!hasN t (size - 1)) = true
+      · simp [hn] at H
+      · simp only [hn] at H
+        have hlen : size - 1 ≤ t.length := by
+          have := mt (not_hasN t (size - 1)).mpr hn
+          omega
+        by_cases htag : (List.drop 7 (List.take (size - 1) t)).take 4 ≠ dataTypeFIT
+        · simp [htag] at H
+        · have htag' : (List.drop 7 (List.take (size - 1) t)).take 4 = dataTypeFIT := by simpa using htag
+          rw [dataTypeFIT_eq] at htag'
+          rcases hsz with h12 | h14
+          · subst h12
+            match t, hlen, htag' with
+            | pv :: p0 :: p1 :: d0 :: d1 :: d2 :: d3 :: t0 :: t1 :: t2 :: t3 :: rest', _, htag' =>
+              simp only [List.take, List.drop, List.cons.injEq, and_true] at htag'
+              obtain ⟨e0, e1, e2, e3⟩ := htag'
+              subst e0 e1 e2 e3
+              simp [FitFormat.parseHeader, FitFormat.tag]
+          · subst h14
+            match t, hlen, htag' with
+            | pv :: p0 :: p1 :: d0 :: d1 :: d2 :: d3 :: t0 :: t1 :: t2 :: t3 :: k0 :: k1 :: rest', _, htag' =>
+              simp only [List.take, List.drop, List.cons.injEq, and_true] at htag'
+              obtain ⟨e0, e1, e2, e3⟩ := htag'
+              subst e0 e1 e2 e3
+              simp [FitFormat.parseHeader, FitFormat.tag]
+
+end Fit.Integrity
+
+namespace Fit.Integrity
+open Fit.Crc Fit.Gen.Integ
+
+/-! ### `CheckIntegrity` against the reference, in lockstep -/
+
+/-- verdict and count of a `CheckIntegrity` outcome -/
+def verdict : Result → IntegritySpec.Verdict
+  | .ok n => .ok n
+  | .err _ n => .bad n
+
+theorem check_ref_lockstep (fuel seq : Nat) (bs : List Nat) (hb : Bytes bs) (hf : bs.length < fuel)
+    (hleg : IntegritySpec.legacyLoop fuel bs = false) :
+    verdict (checkLoop fuel seq bs) = IntegritySpec.refLoop fuel seq bs := by
+  induction fuel generalizing seq bs with
+  | zero => omega
+  | succ fuel ih =>
+    cases bs with
+    | nil =>
+      by_cases hs : seq = 0 <;> simp [checkLoop, decodeFileHeader, IntegritySpec.refLoop, verdict, hs]
+    | cons a t =>
+      cases hp : FitFormat.parseHeader (a :: t) with
+      | none =>
+        have hr : IntegritySpec.refLoop (fuel + 1) seq (a :: t) = .bad seq := by
+          simp [IntegritySpec.refLoop, IntegritySpec.seqValid, hp]
+        rw [hr]
+        cases hh : decodeFileHeader true (a :: t) with
+        | ok p => exact absurd hp (parseHeader_of_decode (h := p.1) (rest := p.2) hh)
+        | error e => unfold checkLoop; simp [hh, verdict]
+      | some h =>
+        unfold IntegritySpec.legacyLoop at hleg
+        simp only [hp] at hleg
+        obtain ⟨pv, p0, p1, d0, d1, d2, d3, t1, hbs, hD, hcase⟩ := parseHeader_some hp
+        split at hleg
+        · cases hleg
+        · rename_i hcrc
+          rcases hcase with ⟨_, hnone⟩ | ⟨h14, k0, k1, t', ht1, hk⟩
+          · exact absurd (Or.inl hnone) hcrc
+          · subst ht1
+            have hk0 : k0 + 256 * k1 ≠ 0 := by
+              intro h0; apply hcrc; right; rw [hk, h0]
+            rw [h14] at hbs
+            have hH12 : Bytes [14, pv, p0, p1, d0, d1, d2, d3, 0x2E, 0x46, 0x49, 0x54] := by
+              intro x hx; apply hb x; rw [hbs]
+              simp only [List.mem_cons] at hx ⊢
+              rcases hx with h | h | h | h | h | h | h | h | h | h | h | h | h
+              all_goals first | (simp [h]; done) | (simp at h)
+            have hk0b : k0 < 256 := hb k0 (by rw [hbs]; simp)
+            have hk1b : k1 < 256 := hb k1 (by rw [hbs]; simp)
+            have ht'b : Bytes t' := by intro x hx; apply hb x; rw [hbs]; simp [hx]
+            have hev := header14_eval pv p0 p1 d0 d1 d2 d3 k0 k1 t' hH12
+            rw [← hbs, ← hD] at hev
+            have htake12 : (a :: t).take 12 = [14, pv, p0, p1, d0, d1, d2, d3, 0x2E, 0x46, 0x49, 0x54] := by rw [hbs]; rfl
+            -- the reference on this sequence
+            have hsv : IntegritySpec.seqValid (a :: t) =
+                if h.dataSize = 0 then none
+                else if (k0 + 256 * k1 ≠ crcSpec 0 [14, pv, p0, p1, d0, d1, d2, d3, 0x2E, 0x46, 0x49, 0x54]) then none
+                else match t'.drop h.dataSize with
+                  | c0 :: c1 :: _ => if FitFormat.le16 c0 c1 = crcSpec 0 ((a :: t).take (14 + h.dataSize)) then some (14 + h.dataSize + 2) else none
+                  | _ => none := by
+              unfold IntegritySpec.seqValid
+              simp only [hp, hk, IntegritySpec.headerCrcBad, htake12, h14]
+              have hdrop : (a :: t).drop (14 + h.dataSize) = t'.drop h.dataSize := by
+                rw [hbs, Nat.add_comm]; simp [List.drop_succ_cons]
+              rw [hdrop]
+              by_cases hz : h.dataSize = 0
+              · simp [hz]
+              · simp only [hz, if_false, hk0, ne_eq, not_false_eq_true, decide_true, Bool.true_and,
+                  decide_eq_true_eq]
+                rfl
+            by_cases hz : h.dataSize = 0
+            · -- data size 0: both reject
+              rw [if_pos hz] at hev
+              have hr : IntegritySpec.refLoop (fuel + 1) seq (a :: t) = .bad seq := by
+                simp [IntegritySpec.refLoop, hsv, hz]
+              rw [hr]; unfold checkLoop; simp [hev, verdict]
+            · rw [if_neg hz, if_neg hk0] at hev
+              by_cases hbad : crcSpec 0 [14, pv, p0, p1, d0, d1, d2, d3, 0x2E, 0x46, 0x49, 0x54] ≠ k0 + 256 * k1
+              · -- header CRC wrong: both reject
+                rw [if_pos hbad] at hev
+                have hr : IntegritySpec.refLoop (fuel + 1) seq (a :: t) = .bad seq := by
+                  have : k0 + 256 * k1 ≠ crcSpec 0 [14, pv, p0, p1, d0, d1, d2, d3, 0x2E, 0x46, 0x49, 0x54] := fun e => hbad e.symm
+                  simp [IntegritySpec.refLoop, hsv, hz, this]
+                rw [hr]; unfold checkLoop; simp [hev, verdict]
+              · rw [if_neg hbad] at hev
+                have hgood : k0 + 256 * k1 = crcSpec 0 [14, pv, p0, p1, d0, d1, d2, d3, 0x2E, 0x46, 0x49, 0x54] := by
+                  have := Decidable.not_not.mp hbad; exact this.symm
+                rw [checkLoop_step _ _ _ _ _ hev]
+                simp only
+                rw [if_neg hz, if_neg (by rw [hgood]; simp)] at hsv
+                by_cases hlen : t'.length < h.dataSize + 2
+                · -- truncated: both reject
+                  rw [if_pos hlen]
+                  have hr : IntegritySpec.refLoop (fuel + 1) seq (a :: t) = .bad seq := by
+                    have hl : (t'.drop h.dataSize).length < 2 := by simp; omega
+                    unfold IntegritySpec.refLoop
+                    simp only [List.isEmpty_cons, Bool.false_eq_true, if_false, hsv]
+                    match hd : t'.drop h.dataSize with
+                    | [] => rfl
+                    | [_] => rfl
+                    | _ :: _ :: _ => rw [hd] at hl; simp at hl; omega
+                  rw [hr]; rfl
+                · rw [if_neg hlen]
+                  obtain ⟨c0, c1, t'', hd⟩ : ∃ c0 c1 t'', t'.drop h.dataSize = c0 :: c1 :: t'' := by
+                    have hl : 2 ≤ (t'.drop h.dataSize).length := by simp; omega
+                    match hd : t'.drop h.dataSize, hl with
+                    | c0 :: c1 :: t'', _ => exact ⟨c0, c1, t'', rfl⟩
+                  have hd2 : t'.drop (h.dataSize + 2) = t'' := by rw [← List.drop_drop, hd]; rfl
+                  -- the CRC over the whole sequence equals the CRC over the records (header residue 0)
+                  have hcrc_eq : crcSpec 0 ((a :: t).take (14 + h.dataSize)) = write 0 (t'.take h.dataSize) := by
+                    have : (a :: t).take (14 + h.dataSize) =
+                        ([14, pv, p0, p1, d0, d1, d2, d3, 0x2E, 0x46, 0x49, 0x54] ++ [k0, k1]) ++ t'.take h.dataSize := by
+                      rw [hbs, Nat.add_comm]; simp [List.take_succ_cons]
+                    rw [this, crcSpec_append, crc_header14_zero _ k0 k1 hH12 hk0b hk1b hgood,
+                      write_eq_spec _ (ht'b.take _) 0 (by decide)]
+                  rw [hd] at hsv
+                  simp only [hcrc_eq, FitFormat.le16] at hsv
+                  rw [hd, hd2]
+                  simp only [le16]
+                  by_cases hc : ¬ write 0 (t'.take h.dataSize) = c0 + 256 * c1
+                  · simp only [ne_eq, hc, not_false_eq_true, if_true]
+                    have hr : IntegritySpec.refLoop (fuel + 1) seq (a :: t) = .bad seq := by
+                      unfold IntegritySpec.refLoop
+                      simp only [List.isEmpty_cons, Bool.false_eq_true, if_false, hsv]
+                      rw [if_neg (fun e => hc e.symm)]
+                    rw [hr]; rfl
+                  · simp only [hc, if_false]
+                    have hc' : c0 + 256 * c1 = write 0 (t'.take h.dataSize) := (Decidable.not_not.mp hc).symm
+                    have hdropn : (a :: t).drop (14 + h.dataSize + 2) = t'' := by
+                      rw [← hd2, hbs, show 14 + h.dataSize + 2 = (h.dataSize + 2) + 14 by omega]
+                      simp [List.drop_succ_cons]
+                    have hr : IntegritySpec.refLoop (fuel + 1) seq (a :: t) = IntegritySpec.refLoop fuel (seq + 1) t'' := by
+                      conv => lhs; unfold IntegritySpec.refLoop
+                      simp only [List.isEmpty_cons, Bool.false_eq_true, if_false, hsv]
+                      rw [if_pos hc']
+                      simp only [hdropn]
+                    rw [hr]
+                    rw [hsv, if_pos hc'] at hleg
+                    simp only [hdropn] at hleg
+                    have hlt : t''.length < fuel := by
+                      have : t''.length ≤ t'.length := by rw [← hd2]; simp
+                      have : (a :: t).length = t'.length + 14 := by rw [hbs]; simp
+                      omega
+                    exact ih (seq + 1) t'' (by rw [← hd2]; exact ht'b.drop _) hlt hleg
+
+end Fit.Integrity
